@@ -5,7 +5,7 @@
 
 use crate::common::*;
 use crate::model;
-use crate::{ensure, ensure_eq_bytes};
+use crate::{ensure, ensure_eq_bytes, pick};
 use vp_base::obj::*;
 use vp_base::tape::{self, Tape};
 
@@ -16,7 +16,7 @@ distinct by hash of all decoded values";
 pub fn check(ctx: &Ctx, t: &mut Tape<'_>, r: &mut Report) -> CheckResult {
     let mode = t.pick(&[Mode::Cbc, Mode::Pcbc, Mode::Ige]);
     let dir = t.pick(&[Direction::Enc, Direction::Dec]);
-    let suite = ctx.pick_suite(t, |s| dir == Direction::Enc || s.info.has_dec);
+    let suite = pick!(ctx, t, r, |s| dir == Direction::Enc || s.has_dec);
     let f = suite.block_mode(mode, dir).expect("harness: mode registered");
     let how = ctor_pick(t);
     let key = gen_key(t, suite);
